@@ -275,7 +275,11 @@ def cases(tier):
                 lambda A, s_=s_, d=d: R.movedim(A["a"], s_, d))
             add("functional.transpose", {"shape": shape, "dim0": s_, "dim1": d}, [("a", shape, ANY)], lambda T, s_=s_, d=d: F.transpose(T["a"], s_, d),
                 lambda A, s_=s_, d=d: R.transpose(A["a"], s_, d))
-    for s_, d in [((0, 1), (1, 2)), ((0, 2), (2, 0)), ((-1, 0), (0, 1)), ((0, 1, 2), (2, 0, 1)), ((0, 0), (1, 2)), ((0, 1), (2,))]:
+    # tuple forms: every ordered choice of 2 or 3 source dims x every ordered choice of destinations on rank 3 (which pair is spelled first must not matter), repeated /
+    # out-of-range / unequal-length tuples, negative spellings
+    tuple_forms = [(s_, d) for r_ in (2, 3) for s_ in itertools.permutations(range(3), r_) for d in itertools.permutations(range(3), r_)]
+    tuple_forms += [((-1, 0), (0, 1)), ((0, 0), (1, 2)), ((0, 1), (2,)), ((0, -1), (-1, 0)), ((-3, 1), (1, -3)), ((2, 0), (-2, -1)), ((0, 1), (1, 1)), ((0, 3), (1, 2)), ((0, 1), (1, -4)), ((), ())]
+    for s_, d in tuple_forms:
         add("functional.movedim", {"shape": (2, 3, 4), "source": s_, "destination": d}, [("a", (2, 3, 4), ANY)], lambda T, s_=s_, d=d: F.movedim(T["a"], s_, d),
             lambda A, s_=s_, d=d: R.movedim(A["a"], s_, d))
     for shape in [(), (3,), (2, 3), (2, 3, 2)] + ([(2, 1, 2, 2), (1, 2, 1, 2, 2)] if tier == "thorough" else [(2, 1, 1, 2)]):
@@ -683,6 +687,86 @@ def selftest(run):
         run.error("reference semantics self-test failed (the SPEC disagrees with NumPy/torch, checker bug): %s" % sorted(set(bad))[:10])
 
 
+def process_state_part(run):
+    """Bounded, native: forward values for overflowing / undefined arguments are NumPy's (inf, nan -- no exception), and stay so whatever the process did before: the
+    library's entry points that loop, catch or re-raise (Trainer.fit / Trainer.test ending normally and by an exception out of a callback / the data pipeline, optimizer
+    steps, no_grad / retain_grads blocks left by an exception, DataLoader passes) leave NumPy's process-wide error handling (np.geterr) as they found it."""
+    import contextlib
+    import io
+    import warnings
+    import synapgrad
+    import synapgrad.functional as F
+    from synapgrad.tensor import Tensor
+    from ..props import c18
+    c18.stub_pkg_resources()
+    from ..rtc import trainlog as tl
+    tm = sys.modules["synapgrad.tensor"]
+
+    def probes():
+        out = []
+        with warnings.catch_warnings():
+            warnings.simplefilter("ignore")
+            for dt in (np.float32, np.float64):
+                big = dt(3e38) if dt == np.float32 else dt(1e308)
+                for name, fn in (("exp(1000)", lambda: F.exp(Tensor(np.array([1000.0], dtype=dt)))), ("sqrt(-1)", lambda: F.sqrt(Tensor(np.array([-1.0], dtype=dt)))),
+                                 ("big*big", lambda: Tensor(np.array([big], dtype=dt)) * Tensor(np.array([big], dtype=dt))), ("(-2)**0.5", lambda: Tensor(np.array([-2.0], dtype=dt)) ** 0.5),
+                                 ("sum of three big", lambda: F.sum(Tensor(np.array([big, big, big], dtype=dt)))), ("log(-1)", lambda: F.log(Tensor(np.array([-1.0], dtype=dt)))),
+                                 ("1/0", lambda: Tensor(np.array([1.0], dtype=dt)) / Tensor(np.array([0.0], dtype=dt)))):
+                    try:
+                        v = np.asarray(fn().data, dtype=np.float64).ravel()
+                        out.append((name, np.dtype(dt).name, "nan" if np.isnan(v[0]) else repr(float(v[0]))))
+                    except Exception as e:
+                        out.append((name, np.dtype(dt).name, "raised %s" % type(e).__name__))
+        return out
+
+    def fit_history(case, boom_in_callback=False):
+        w = tl.World(dict(tl.DEFAULT, **case))
+        cb = None
+        if boom_in_callback:
+            def cb(model, loader):
+                raise tl.Boom("early stop")
+        with contextlib.redirect_stdout(io.StringIO()):
+            try:
+                w.trainer.fit(w.train_loader, case.get("epochs", 1), w.val_loader, on_train_epoch=cb)
+            except tl.Boom:
+                pass
+            try:
+                w.trainer.model.eval()
+                w.trainer.test(w.test_loader)
+            except Exception:
+                pass
+
+    def ctx_history():
+        for ctx in (tm.no_grad, tm.retain_grads):
+            try:
+                with ctx():
+                    raise tl.Boom("left by an exception")
+            except tl.Boom:
+                pass
+    histories = [("Trainer.fit, two epochs, returns normally", lambda: fit_history(dict(epochs=2, n_train=2, bs=2, val=1))),
+                 ("Trainer.fit left by an exception raised in the validation data pipeline", lambda: fit_history(dict(epochs=1, n_train=1, bs=2, val=2, val_raises=True))),
+                 ("Trainer.fit left by an exception raised by the epoch callback", lambda: fit_history(dict(epochs=2, n_train=1, bs=2), boom_in_callback=True)),
+                 ("no_grad / retain_grads blocks left by an exception", ctx_history)]
+    base_err, base = dict(np.geterr()), probes()
+    expected_bad = [b for b in base if b[2].startswith("raised")]
+    run.rt(("process-state", "fresh"))
+    if expected_bad:
+        run.violation("forward.overflow_and_undefined_values_follow_numpy", "in a process that did nothing else: %s" % expected_bad, key={"history": "none"}, replay={"probes": expected_bad})
+    for label, h in histories:
+        run.rt(("process-state", label))
+        try:
+            h()
+        except Exception as e:
+            run.error("process-state history %r failed in the harness: %s: %s" % (label, type(e).__name__, e))
+            continue
+        now_err, now = dict(np.geterr()), probes()
+        if now_err != base_err or now != base:
+            diff = [(a, b) for a, b in zip(base, now) if a != b]
+            run.violation("forward.overflow_and_undefined_values_follow_numpy", "after the history '%s' np.geterr() is %s (before: %s) and these forward results changed: %s" % (label, now_err, base_err, diff[:4]),
+                          key={"history": label}, replay={"history": label, "np.geterr before": base_err, "after": now_err, "changed": [list(map(list, d)) for d in diff]})
+            np.seterr(**base_err)
+
+
 def main(tier="quick", seed=0, procs=None, only=None):
     from ..pyvc.harness import TargetCase
     run = Run("C05", tier, seed, "proof")
@@ -703,6 +787,7 @@ def main(tier="quick", seed=0, procs=None, only=None):
     try:
         native_part(run)
         dtype_mixed_part(run)
+        process_state_part(run)
         selftest(run)
     except Exception as e:
         run.error("native part / self-test failed", e)
